@@ -271,7 +271,10 @@ def check_containers(desc, ctx):
 
 # ---- refusals -----------------------------------------------------------------------------------------------------------
 _UNKNOWN = ["", "xx", "Bar", "MMOL", "gram", "kelvin", "volume", "absolut", "relative %", "percentage", "mmol", "g",
-            "cm3", "bar", "K", "molar", "mass"]
+            "cm3", "bar", "K", "molar", "mass",
+            # names that are valid in ANOTHER slot / table (a basis of another quantity, a mode, a unit of another basis)
+            "volume_gas", "volume_liquid", "percent", "fraction", "relative", "absolute", "relative%", "torr", "kg",
+            "cm3(STP)", "mol", "°C"]
 
 
 def strat_refusal():
